@@ -248,7 +248,8 @@ fn add_degree_to_best_com(best_com: usize, deg_info: &mut DegreeInfo, directed: 
     }
 }
 
-/// Two modularity gains closer than this are considered equal (rounding noise).
+/// Two modularity gains closer than this, relative to the size of the terms they are computed
+/// from (and absolutely, for terms below 1), are considered equal (rounding noise).
 const GAIN_TIE_TOLERANCE: f64 = 1e-10;
 
 fn update_best_com(
@@ -265,19 +266,27 @@ fn update_best_com(
     let mut candidates: Vec<(usize, f64)> = weights2com.into_iter().collect();
     candidates.sort_by_key(|(nbr_com, _)| *nbr_com);
     for (nbr_com, wt) in candidates {
-        let gain = match directed {
-            true => {
-                wt - resolution
+        let (link, penalty) = match directed {
+            true => (
+                wt,
+                resolution
                     * (deg_info.out_degree * deg_info.stot_in[nbr_com]
                         + deg_info.in_degree * deg_info.stot_out[nbr_com])
-                    / m
-            }
-            false => 2.0 * wt - resolution * (deg_info.stot[nbr_com] * deg_info.degree) / m,
+                    / m,
+            ),
+            false => (
+                2.0 * wt,
+                resolution * (deg_info.stot[nbr_com] * deg_info.degree) / m,
+            ),
         };
+        let gain = link - penalty;
         // gains that are equal in exact arithmetic can differ in their last bits (they are
         // computed from different sums); treating such a difference as an improvement lets two
-        // nodes swap communities back and forth for ever, so it counts as a tie
-        if gain > *best_mod + GAIN_TIE_TOLERANCE {
+        // nodes swap communities back and forth for ever, and makes the result depend on the
+        // order of the sums, so it counts as a tie. The rounding noise grows with the size of
+        // the two terms, so the tolerance does too.
+        let tolerance = GAIN_TIE_TOLERANCE * link.abs().max(penalty.abs()).max(1.0);
+        if gain > *best_mod + tolerance {
             *best_mod = gain;
             *best_com = nbr_com;
         }
